@@ -35,6 +35,10 @@ pub enum Kind {
     EmptyForm,
     CommentOutside,
     WsOutside,
+    /// another prefix for a namespace that is bound with `xmlns:p` (declaration and every use in scope)
+    AttrPrefix,
+    /// the `xmlns:p` declarations of this element are made on the root element instead
+    HoistDecl,
 }
 
 #[derive(Debug, Clone, Copy, PartialEq, Eq, PartialOrd, Ord, Hash)]
@@ -65,6 +69,12 @@ pub fn applicable(root: &Node) -> Vec<Rw> {
         if n.attr("xmlns").is_some() {
             out.push(Rw { kind: Kind::Prefix, pos });
         }
+        if n.attrs.iter().any(|(k, _)| k.starts_with("xmlns:")) {
+            out.push(Rw { kind: Kind::AttrPrefix, pos });
+            if pos != 0 {
+                out.push(Rw { kind: Kind::HoistDecl, pos });
+            }
+        }
         if !n.children.is_empty() {
             out.push(Rw { kind: Kind::WsBetween, pos });
             out.push(Rw { kind: Kind::CommentFirst, pos });
@@ -92,6 +102,8 @@ struct Ser<'a> {
     out: String,
     /// elements listed here are written as <x></x> by default (how the seed spells them)
     expanded_by_default: &'a [&'a str],
+    /// `xmlns:p` declarations moved to the root by HoistDecl rewrites
+    hoisted: Vec<(String, String)>,
 }
 
 impl Ser<'_> {
@@ -99,10 +111,40 @@ impl Ser<'_> {
         self.rws.iter().any(|r| r.kind == kind && r.pos == pos)
     }
 
-    fn node(&mut self, n: &Node, inherited_prefix: Option<&str>) {
+    fn node(&mut self, n: &Node, inherited_prefix: Option<&str>, inherited_renames: &[(String, String)]) {
         let pos = self.next;
         self.next += 1;
         let mut attrs = n.attrs.clone();
+        let mut renames: Vec<(String, String)> = inherited_renames.to_vec();
+        // a redeclaration of a prefix ends the scope of an inherited rename
+        for (k, _) in &attrs {
+            if let Some(p) = k.strip_prefix("xmlns:") {
+                renames.retain(|(from, _)| from != p);
+            }
+        }
+        if self.has(Kind::AttrPrefix, pos) {
+            for (k, _) in &attrs {
+                if let Some(p) = k.strip_prefix("xmlns:") {
+                    renames.push((p.to_string(), format!("q{pos}{}", &p[..1])));
+                }
+            }
+        }
+        for a in &mut attrs {
+            if let Some(p) = a.0.strip_prefix("xmlns:") {
+                if let Some((_, to)) = renames.iter().find(|(from, _)| from == p) {
+                    a.0 = format!("xmlns:{to}");
+                }
+            } else if let Some((p, local)) = a.0.split_once(':') {
+                if let Some((_, to)) = renames.iter().find(|(from, _)| from == p) {
+                    a.0 = format!("{to}:{local}");
+                }
+            }
+        }
+        if pos == 0 {
+            attrs.extend(self.hoisted.clone());
+        } else if self.has(Kind::HoistDecl, pos) {
+            attrs.retain(|(k, _)| !k.starts_with("xmlns:"));
+        }
         let mut prefix: Option<String> = inherited_prefix.map(str::to_string);
         if n.attr("xmlns").is_some() {
             // a new default namespace ends the scope of an inherited prefix rewrite
@@ -159,7 +201,7 @@ impl Ser<'_> {
                 if ws {
                     self.out.push_str("\n  ");
                 }
-                self.node(c, p.as_deref());
+                self.node(c, p.as_deref(), &renames);
             }
             if self.has(Kind::CommentLast, pos) {
                 self.out.push_str("<!-- c13 -->");
@@ -173,7 +215,23 @@ impl Ser<'_> {
 }
 
 pub fn serialize(root: &Node, rws: &[Rw], expanded_by_default: &[&str]) -> String {
-    let mut s = Ser { rws, next: 0, out: String::new(), expanded_by_default };
+    let mut hoisted: Vec<(String, String)> = Vec::new();
+    if rws.iter().any(|r| r.kind == Kind::HoistDecl) {
+        let mut nodes = Vec::new();
+        index(root, &mut 0, &mut nodes);
+        for (pos, ptr) in nodes {
+            if rws.iter().any(|r| r.kind == Kind::HoistDecl && r.pos == pos) {
+                // SAFETY: pointers come from the borrowed tree and are used within this call only
+                let n = unsafe { &*ptr };
+                for (k, v) in &n.attrs {
+                    if k.starts_with("xmlns:") && !hoisted.iter().any(|(hk, _)| hk == k) && root.attr(k).is_none() {
+                        hoisted.push((k.clone(), v.clone()));
+                    }
+                }
+            }
+        }
+    }
+    let mut s = Ser { rws, next: 0, out: String::new(), expanded_by_default, hoisted };
     if rws.iter().any(|r| r.kind == Kind::Decl) {
         s.out.push_str("<?xml version=\"1.0\" encoding=\"UTF-8\"?>");
     }
@@ -183,7 +241,7 @@ pub fn serialize(root: &Node, rws: &[Rw], expanded_by_default: &[&str]) -> Strin
     if rws.iter().any(|r| r.kind == Kind::CommentOutside) {
         s.out.push_str("<!-- before -->");
     }
-    s.node(root, None);
+    s.node(root, None, &[]);
     if rws.iter().any(|r| r.kind == Kind::CommentOutside) {
         s.out.push_str("<!-- after -->");
     }
@@ -374,5 +432,5 @@ pub fn run(report: &mut Report) {
     report.set("distinct_nontrivial", distinct.len() as u64);
     report.set("rewrites_applied_by_kind", json!(per_kind));
     report.set("exhaustive", true);
-    report.set("rule", "seeds: hellos, every reply type (ok, data, bare, load results, rpc-errors with all leaves), get-config data for both agent readers, accepted and rejected ones; rewrites: namespace prefix instead of default namespace (per declaration), whitespace between elements, whitespace around token-valued text, comments (first/last child, outside the root), attribute order, quote style, XML declaration, <x/> vs <x></x>; every applicable (rewrite, position) singly and in pairs; distinct = distinct rewritten documents; oracle: same acceptance and same Debug value as the seed");
+    report.set("rule", "seeds: hellos, every reply type (ok, data, bare, load results, rpc-errors with all leaves), get-config data for both agent readers, accepted and rejected ones; rewrites: namespace prefix instead of default namespace (per declaration), whitespace between elements, whitespace around token-valued text, comments (first/last child, outside the root), another prefix for a namespace bound with xmlns:p (declaration and uses), xmlns:p declarations hoisted to the root element, attribute order, quote style, XML declaration, <x/> vs <x></x>; every applicable (rewrite, position) singly and in pairs; distinct = distinct rewritten documents; oracle: same acceptance and same Debug value as the seed");
 }
